@@ -25,8 +25,11 @@ VALID = {"dynamics": [{"expression": "x' = (0 - x)/tau + 1*y", "initial_value": 
 ANALYTIC = {"dynamics": [{"expression": "g' = -g/2", "initial_value": "1"}]}
 MALFORMED = {"dynamics": [{"expression": "x' = -x", "initial_values": {"x": "1", "x'": "0"}}]}
 SYSEXIT = {"dynamics": [{"expression": "x'' = -x + 1", "initial_values": {"x": "1", "x'": "0"}}]}
+# several numerically solved variables (their order in the result must not depend on the interpreter's hash seed)
+LORENZ = {"dynamics": [{"expression": "x' = 10*(y - x)", "initial_value": "1"}, {"expression": "y' = x*(28 - z) - y", "initial_value": "1"}, {"expression": "z' = x*y - 8*z/3", "initial_value": "1"},
+                       {"expression": "w' = -w*x**2", "initial_value": "2"}]}
 
-API_KINDS = ("valid", "analytic", "malformed_system", "sysexit_system", "empty_system", "no_equations", "only_parameters")
+API_KINDS = ("valid", "analytic", "malformed_system", "sysexit_system", "empty_system", "no_equations", "only_parameters", "lorenz")
 PATHS = ["in.json", "in.v2.json", "sub/in.json", "some.dir/input", "some.dir/in.json", "noext", "a.b/c.d/e.f.json", "./x.json"]
 
 
@@ -42,7 +45,7 @@ def cli_run(job):
         if job["content"] is not None:
             with open(full, "w") as f:
                 f.write(job["content"])
-        env = C.impl_env()
+        env = C.impl_env(hashseed=str(job.get("hashseed", "0")))
         p = subprocess.run([C.PY, os.path.join(C.REPO, "ode_analyzer.py"), path] + job["flags"], cwd=work, env=env,
                            stdout=subprocess.PIPE, stderr=subprocess.PIPE, text=True, timeout=180)
         written = []
@@ -163,8 +166,19 @@ def run(ctx):
     for kind, content in (("empty_system", "{}"), ("no_equations", json.dumps({"dynamics": []})), ("only_parameters", json.dumps({"dynamics": [], "parameters": {"tau": "2"}}))):
         for spec in (base, {"dsc": True, "das": True, "pe": [], "ll": "DEBUG"}):
             jobs.append({"kind": kind, "spec": spec, "path": rng.choice(PATHS), "content": content, "flags": render_flags(spec, ["ll", "dsc", "pe", "das"])})
+    # each command-line run is a fresh interpreter with its own hash randomisation, the API answer comes from another one:
+    # the same runs under other hash seeds must give the same answer up to the spelling of expressions (same solvers, same
+    # state variables in the same order, same keys)
+    xjobs = []
+    for j_ in [j for j in jobs if j["kind"] in ("valid", "analytic") and j["spec"]["dsc"]][:6] + [{"kind": "lorenz", "spec": sp_, "path": "in.json", "content": json.dumps(LORENZ), "flags": render_flags(sp_, ["dsc", "das", "pe", "ll"])}
+                                                                              for sp_ in (base, {"dsc": True, "das": True, "pe": None, "ll": None})]:
+        for hs_ in (1, 2, 3) if quick else (1, 2, 3, 4, 5, 6, 7):
+            xjobs.append(dict(j_, hashseed=hs_))
+        if j_["kind"] == "lorenz":
+            jobs.append(j_)
     with ThreadPoolExecutor(max_workers=C.NPROC) as ex:
         cli = list(ex.map(cli_run, jobs))
+        xcli = list(ex.map(cli_run, xjobs))
     api_cases = [{"content": j["content"], "kwargs": expected_kwargs(j["spec"])} for j in jobs if j["kind"] in API_KINDS]
     api_idx = [i for i, j in enumerate(jobs) if j["kind"] in API_KINDS]
     chunks = [api_cases[i::8] for i in range(8)]
@@ -207,6 +221,23 @@ def run(ctx):
         if should_succeed and c["status"] == 0 and c["content"] == a["result"] or not should_succeed:
             coq.append("((%s, %s), (list_ascii_of_string %s, %s))" % (C.clist([cs(j["path"])] + [cs(f) for f in j["flags"]]), obs_args, cs(j["path"]), nm))
             info.append({"job": {k: v for k, v in j.items() if k != "content"}, "cli": {k: v for k, v in c.items() if k != "content"}})
+    # cross-hash-seed comparison (structure)
+    def structure(res_):
+        return [[s_.get("solver"), list(s_.get("state_variables", [])), sorted(s_.keys()), list(s_.get("update_expressions", {}).keys()), list(s_.get("initial_values", {}).keys())] for s_ in res_] if isinstance(res_, list) else res_
+    ref = {}
+    for j_, c_ in zip(jobs, cli):
+        ref[(j_["kind"], j_["path"], tuple(j_["flags"]))] = c_
+    dist["other_hash_seeds"] = {"runs": len(xjobs), "compared": 0}
+    for j_, c_ in zip(xjobs, xcli):
+        r_ = ref.get((j_["kind"], j_["path"], tuple(j_["flags"])))
+        if r_ is None or r_["status"] != 0:
+            continue
+        dist["other_hash_seeds"]["compared"] += 1
+        if c_["status"] != 0 or c_["written"] != r_["written"] or structure(c_["content"]) != structure(r_["content"]):
+            probe_failures.append({"key": "cli result depends on the interpreter's hash seed: %s %s" % (j_["kind"], " ".join(j_["flags"])),
+                                   "what": "ode_analyzer.py %s %s under PYTHONHASHSEED=%s: exit %s, files %s, structure %s; under PYTHONHASHSEED=0 (where it equals the API's answer): exit %s, files %s, structure %s" % (
+                                       j_["path"], " ".join(j_["flags"]), j_["hashseed"], c_["status"], c_["written"], json.dumps(structure(c_["content"]))[:400], r_["status"], r_["written"], json.dumps(structure(r_["content"]))[:400]),
+                                   "replay": {"job": j_}})
     mism, errs = ([], [])
     if os.path.exists(os.path.join(C.COQ, "theories/Gen/CliGen.vo")):
         mism, errs = C.coq_eval_shards(PROP, HEADER, coq, per=100)
